@@ -1,0 +1,31 @@
+//go:build verif
+
+// Package verifhook provides named observation points for external
+// verification harnesses. With the "verif" build tag, At forwards to the
+// handler installed with Set (if any) on the calling goroutine.
+package verifhook
+
+import "sync/atomic"
+
+type Handler func(point string, args ...any)
+
+var handler atomic.Pointer[Handler]
+
+// Set installs (or, with nil, removes) the process-wide handler.
+func Set(h Handler) {
+	if h == nil {
+		handler.Store(nil)
+		return
+	}
+	handler.Store(&h)
+}
+
+// At marks a named point in the code and calls the installed handler.
+func At(point string, args ...any) {
+	if h := handler.Load(); h != nil {
+		(*h)(point, args...)
+	}
+}
+
+// Enabled reports whether hooks are compiled in.
+const Enabled = true
